@@ -409,7 +409,7 @@ register("C02", streams=[Q("rec", apis=["find_matches"], src=False, maxlen=5, sh
 register("C03", streams=[Q("filter", pred="custom", apis=["find_matches"], src=False, share=2), Q("filter", pred="mixed", apis=["find_matches"], src=False, share=1),
                          Q("filterpar", pred="custom", apis=["find_matches"], src=None, share=1, par_filter_par=0.4),
                          Q("filter", pred="below", apis=["find_matches"], src=False, share=1)],
-         observables=["calls", "results_exc"],
+         observables=["calls", "results_exc"], oracles=[oracles.deep_oracle],
          rule="paths with filters in any position (root, after wildcard/rec/slice, stacked, followed by steps); predicates are decision tables over the candidate returning arbitrary truthy/falsy objects or raising, neighbour lookups, and has-family predicates; compared: results, per-candidate call log (path, data_name, data, parent), exception cause chain")
 register("C04", streams=[Q("filter", pred="has", apis=["find_matches"], src=False, share=5, untraced=0.4, guarded=0.04),
                          Q("filter", pred="below", apis=["find_matches"], src=False, share=1, untraced=0.4)],
@@ -451,7 +451,7 @@ register("C08", oracles=[oracles.append_many_oracle], extra=[families.MutateFami
          rule="histories of 1-10 set_/set_match calls (no cascade) on one evolving document; parent part of any step kind, last step key/index incl. negative, ==len, beyond, wrong kind, other step kinds, the root; values fresh or aliases of existing objects; the same expression objects reused across calls; non-trivial = the history changed the document; compared: outcome class, returned value identity, the whole reachable object graph under canonical object numbers after every call")
 register("C09", oracles=[oracles.append_many_oracle], extra=[families.MutateFamily("cascade", 1500, 60000, "outcome and object graph of cascading set_ / get(store_default) histories")],
          rule="histories of cascading set_/set_match and get(..., store_default=True) on key/index paths that exist up to a random level (wrong type at some level, append vs index 0 vs other indices), interleaved with pops that remove created levels; expression objects reused")
-register("C10", extra=[families.MutateFamily("pop", 1500, 60000, "outcome and object graph of pop / pop_match / set_ histories")],
+register("C10", oracles=[oracles.deep_oracle], extra=[families.MutateFamily("pop", 1500, 60000, "outcome and object graph of pop / pop_match / set_ histories")],
          rule="histories of pop (with/without default), pop_match (must_match on/off) and set_ on one evolving document; any parent part, any last step, negative indices, the root")
 register("C14", extra=[families.MutateFamily("handles", 1500, 60000, "outcome and object graph of Match.data assignment / del / pop histories")],
          rule="1-4 live Match handles (several on the same slot, on shifting list items, obtained through filters / recursion / wildcards) x sequences of m.data = v, del m.data, m.pop(default), m.data reads")
